@@ -53,9 +53,12 @@ def generic_trace_check(prop, tier, replay, *, mc, record, trace_module, control
         small = e if len(json.dumps(e)) < 30000 else {"ev": e["ev"], "src": e.get("src")}
         R.violation(key, "%s fails at trace line %d: %s" % (name, line, json.dumps(small)[:400]),
                     {"events": [small], "obligation": name, "line": line})
-    if payload is None:
+    if payload is None and not R.violations:
         for ctl in controls:
-            r = ctl(copy.deepcopy(events))
+            try:
+                r = ctl(copy.deepcopy(events))
+            except (KeyError, IndexError, TypeError, StopIteration) as ex:
+                raise ToolError("negative control could not be constructed: %r" % ex)
             if r is None:
                 raise ToolError("negative control could not be constructed")
             bad, desc, expect = r
